@@ -116,6 +116,10 @@ func (p *exeParser) readSelectionSet() (sels []Selection, err error) {
 		return
 	}
 	_, _ = p.readByte() // re-read {
+	if err = p.nest(); err != nil {
+		return nil, err
+	}
+	defer p.unnest()
 FOR:
 	for {
 		if err != nil {
